@@ -67,3 +67,11 @@ Proof. intros l H. apply kube_exact. apply kwf_free_run_kwf. exact H. Qed.
    run (reload monitor 1).  If the Wait moves back under the lock, this obligation breaks. *)
 Lemma reloadWaitsOutsideLock_today : gen_reloadWaitsOutsideLock = true.
 Proof. reflexivity. Qed.
+
+(* the source today (repair 6727477, F28): watchStream selects on the done channel of the
+   watch generation its goroutine belongs to.  Re-reading the field c.done lets a goroutine
+   that was still loading when reload ran continue as a member of the previous generation:
+   reload waits for it forever and the other watchers are never restarted (reload monitor 2
+   replays that schedule on the real code at every run). *)
+Lemma watchDoneBoundToGeneration_today : gen_watchDoneBoundToGeneration = true.
+Proof. reflexivity. Qed.
